@@ -229,7 +229,7 @@ Definition c09_record_roundtrip_full_statement
 (* HEADER (NV.Vcf.Header: fileformat, INFO/FORMAT/FILTER/ALT/contig map lines, unstructured ##key=value
    lines, the #CHROM line; writer and parser compared with the implementation on generated headers
    and on arbitrary header text).  Proved: the value grammar, the field loop and every typed map
-   line; the composition over the whole list of lines is still a statement only. *)
+   line, and their composition into the whole header (c09_header_roundtrip). *)
 
 (* any byte string written as a quoted value (backslash before backslash and quote) is read back,
    whatever follows the closing quote *)
@@ -280,11 +280,16 @@ Proof.
 Qed.
 Print Assumptions c09_header_parse_write_fixed_point_refuted.
 
-(* the remaining full statement: all lines of a header together (map ids distinct per kind,
-   unstructured values that the parser does not take for a map, sample names without TAB and
-   distinct) *)
-Definition c09_header_roundtrip_full_statement (header_ok : vheader -> Prop) : Prop :=
-  forall h ls, header_ok h -> write_header h = Some ls -> parse_header ls = Some h.
+(* THE WHOLE HEADER: write -> parse identity for every header_ok header the writer accepts (file
+   format numbers < 2^32; per kind map_ok maps with distinct IDs; unstructured groups with
+   distinct keys that are none of the standard keys / META / PEDIGREE and contain no '=', at
+   least one value each, no value that the parser takes for a structured record (from 4.3 the
+   writer itself rejects values starting with '<'; before 4.3: not '<...ID=...'); sample names
+   without TAB and distinct).  Structured other records are outside the model. *)
+Theorem c09_header_roundtrip : forall h ls,
+  header_ok h -> write_header h = Some ls -> parse_header ls = Some h.
+Proof. exact header_roundtrip. Qed.
+Print Assumptions c09_header_roundtrip.
 
 (* Lazy = eager: the span-relevant fields (INFO END, INFO SVLEN, FORMAT LEN) written and read back
    by the lazy and by the eager reader give the same variant_end and variant_span, equal to those
